@@ -433,8 +433,14 @@ class BitArray(Bits):
             pos = (pos,)
         v = 1 if value else 0
         if isinstance(pos, range):
-            self._bitstore.__setitem__(slice(pos.start, pos.stop, pos.step), v)
-            return
+            if len(pos) == 0:
+                return
+            if min(pos[0], pos[-1]) >= 0 and max(pos[0], pos[-1]) < len(self):
+                # All positions are valid and non-negative so the range can be used as a slice.
+                # (A negative stop in a range means 'down to zero', but in a slice it counts from the end.)
+                stop = pos.stop if pos.stop >= 0 else None
+                self._bitstore.__setitem__(slice(pos.start, stop, pos.step), v)
+                return
         for p in pos:
             self._bitstore[p] = v
 
